@@ -33,7 +33,6 @@ static const parsec_tiled_matrix_t *exp_desc; static void *exp_args;
 static int *g_Amat, g_mt, g_nt;
 static int idle_selects = 0;
 static int master_only = 0;
-static parsec_context_t *g_parsec = NULL;
 
 static void logtile(int m, int n) { if (loglen + 8 < (int)sizeof(logbuf)) loglen += snprintf(logbuf + loglen, sizeof(logbuf) - loglen, "%d%d ", m, n); nlog++; }
 
@@ -200,7 +199,7 @@ typedef struct { char op; int cores; } leg_arg_t;
 static void leg_orders(int slice, int nslices, void *arg_)
 {
     leg_arg_t *la = (leg_arg_t *)arg_;
-    parsec_context_t *parsec = (la->cores == 1 && g_parsec) ? g_parsec : init_ctx(la->cores, NULL);   /* g_parsec: one-stream context inherited from the parent */
+    parsec_context_t *parsec = init_ctx(la->cores, NULL);
     master_only = la->cores > 1;
     hs_install(parsec); hs_module.module.select = c22_select;
     hs_explorer_t *ex = (hs_explorer_t *)malloc(sizeof(*ex));
@@ -224,7 +223,7 @@ static void leg_orders(int slice, int nslices, void *arg_)
         for (int mt = 9; mt >= 1; mt--) { if ((idx++ % nslices) != slice) continue; c.mt = mt; c.nt = 1; explore_cfg(parsec, ex, &c); }
     }
     hs_uninstall(parsec);
-    if (parsec != g_parsec) parsec_fini(&parsec);
+    parsec_fini(&parsec);
 }
 
 static const int TH[] = { 1, 2, 4 }; static const char *SCHEDS[] = { NULL, "ap", "ll" };
@@ -365,16 +364,18 @@ int main(int argc, char **argv)
             if (!wr_total_violations) printf("  replay: case passes\n");
             return wr_finish();
         }
-        wr_run_legs("replay", 1, leg_replay, cas, 30, NULL);
+        wr_run_legs("replay", 1, leg_replay, cas, 60, NULL);
         return wr_finish();
     }
     if (!only || !strcmp(only, "builtin")) leg_builtin();
-    if (!only || !strcmp(only, "threads")) wr_run_legs("threads", 9, leg_threads, NULL, 240, aux);
+    /* deciding legs first (80% of the time budget), free-running configuration box last */
+    double full_deadline = wr_deadline;
+    if (full_deadline > 0 && !only) wr_deadline = full_deadline - 0.2 * (full_deadline - wr_now());
     leg_arg_t a = { 'a', 1 }, m1 = { 'm', 1 }, m2 = { 'm', 2 }, m4 = { 'm', 4 }, r = { 'r', 1 };
-    if (!only || !strcmp(only, "map")) { wr_run_legs("map-orders-2cores", jobs > 4 ? 4 : jobs, leg_orders, &m2, 600, aux); wr_run_legs("map-orders-4cores", jobs > 6 ? 6 : jobs, leg_orders, &m4, 600, aux); }
-    g_parsec = init_ctx(1, NULL);      /* once, in the parent: the forked one-stream hsched workers inherit it */
-    if (!only || !strcmp(only, "map")) wr_run_legs("map-orders-1core", 1, leg_orders, &m1, 600, aux);
     if (with_reduce && (!only || !strcmp(only, "reduce"))) wr_run_legs("reduce-orders", 3, leg_orders, &r, 600, aux);
+    if (!only || !strcmp(only, "map")) { wr_run_legs("map-orders-1core", 1, leg_orders, &m1, 600, aux); wr_run_legs("map-orders-2cores", jobs > 4 ? 4 : jobs, leg_orders, &m2, 600, aux); wr_run_legs("map-orders-4cores", jobs > 6 ? 6 : jobs, leg_orders, &m4, 600, aux); }
     if (!only || !strcmp(only, "apply")) wr_run_legs("apply-orders", jobs, leg_orders, &a, 600, aux);
+    wr_deadline = full_deadline;
+    if (!only || !strcmp(only, "threads")) wr_run_legs("threads", 9, leg_threads, NULL, 240, aux);
     return wr_finish();
 }
